@@ -15,7 +15,10 @@ Step == /\ Len(prog) < MaxOps
            \/ \E a \in Adds, t \in Tags(n) : prog' = Append(prog, [op |-> a, tag |-> t])
            \/ \E p \in Probes, t \in Tags(n), tg \in {1, 2} :
                 /\ ~\E i \in DOMAIN prog : prog[i].op = "probe" /\ prog[i].f = p.f /\ prog[i].mode = p.mode
-                /\ prog' = Append(prog, [op |-> "probe", f |-> p.f, instr |-> p.instr, mode |-> p.mode, target |-> tg, tag |-> t])
+                \* a tag may be appended before or after the probe's code is injected
+                /\ \E tf \in BOOLEAN :
+                     /\ (tf => (t # "" /\ p.mode \in {"before", "after", "alternate", "func_entry"}))
+                     /\ prog' = Append(prog, [op |-> "probe", f |-> p.f, instr |-> p.instr, mode |-> p.mode, target |-> tg, tag |-> t, tagfirst |-> tf])
         /\ UNCHANGED how
 Spec == Init /\ [][Step]_vars
 EmitCase == prog # <<>> => PrintT(<<"REPLAY", ToJson([how |-> how, prog |-> prog])>>)
